@@ -567,7 +567,7 @@ func earlyNilOnlyWhenBothEmpty(e *Env, name string) bool {
 			}
 			for pi, prm := range fn.Params {
 				for _, onTrue := range []bool{true, false} {
-					if edgeImpliesEmpty(iff.Cond, onTrue, prm) && edgeDominates(ib, onTrue, ret) {
+					if impliesEmptyVia(iff.Cond, onTrue, prm) && edgeDominates(ib, onTrue, ret) {
 						dom[pi] = true
 					}
 				}
@@ -582,6 +582,37 @@ func earlyNilOnlyWhenBothEmpty(e *Env, name string) bool {
 		e.R.Hold("R09.1c", key, fmt.Sprintf("%d early nil return(s), each behind nil/empty tests of both operands", n), e.P.Pos(fn.Pos()))
 	}
 	return ok
+}
+
+// impliesEmptyVia: edgeImpliesEmpty, also through a one-line predicate of the package (isNilMap(a)).
+func impliesEmptyVia(cond ssa.Value, onTrue bool, x ssa.Value) bool {
+	if edgeImpliesEmpty(cond, onTrue, x) {
+		return true
+	}
+	c, ok := cond.(*ssa.Call)
+	if !ok {
+		return false
+	}
+	g := c.Call.StaticCallee()
+	if g == nil {
+		return false
+	}
+	if o := g.Origin(); o != nil {
+		g = o // an instantiation may be a thin wrapper: read the generic body
+	}
+	if len(g.Blocks) != 1 {
+		return false
+	}
+	ret, ok := g.Blocks[0].Instrs[len(g.Blocks[0].Instrs)-1].(*ssa.Return)
+	if !ok || len(ret.Results) != 1 {
+		return false
+	}
+	for i, p := range g.Params {
+		if i < len(c.Call.Args) && c.Call.Args[i] == x && edgeImpliesEmpty(ret.Results[0], onTrue, p) {
+			return true
+		}
+	}
+	return false
 }
 
 func mergeServicesRule(e *Env, name string) bool {
